@@ -60,6 +60,12 @@ func (tree *ParserT) parseString(qStart, qEnd rune, exec bool) ([]rune, error) {
 			value = append(value, r)
 			tree.crLf()
 
+		case r == '\\' && qStart == '"' && tree.charPos+1 < len(tree.expression) && tree.expression[tree.charPos+1] != '\n':
+			// escaped character inside a double quoted string: it cannot end the
+			// string (the escape itself is processed when the string is executed)
+			tree.charPos++
+			value = append(value, r, tree.expression[tree.charPos])
+
 		case r == qEnd:
 			// end quote
 			goto endString
